@@ -175,6 +175,34 @@ def run(ctx):
                     o.violated(fn, n, f"components are measured on `{txt(m)[:70]}`, a graph induced by the KEPT EDGES: vertices that lost all their edges are absent from it, "
                                       "so an edgeless outcome has no component at all (size 0 instead of 1) and isolated vertices never count", shape_free=True)
         rets = [n for n in astx.walk_fn(fn.node) if isinstance(n, ast.Return)]
+        # shortcut exits: the fraction depends on the GRAPH (its components), never on phi alone - `if phi >= 1: return 1.0` is wrong for
+        # every disconnected input; `if len(comps) == 1: return 1.0` (one component = all vertices) is the same value
+        extra = [r_ for r_ in rets[:-1]] if len(rets) > 1 else []
+        par4 = astx.Parents(fn.node)
+        for r_ in extra:
+            conds_ = rules.path_conditions(par4, r_)
+            names_ = set()
+            for t_, _ in conds_:
+                names_ |= astx.names_in(t_)
+            pparams = [p_ for p_ in fn.params[1:]]
+            cval = astx.const_value(r_.value) if r_.value is not None else None
+            if cval is not None and conds_ and names_ and names_ <= set(pparams) | {"float", "int", "abs"}:
+                o.violated(fn, r_, f"`return {txt(r_.value)}` when `{' and '.join(txt(t_) for t_, _ in conds_)[:60]}`: a constant is handed back without looking at the graph - "
+                                   "a disconnected (or edgeless) input does not have that fraction even when every / no edge is kept", shape_free=True)
+            elif cval == 1 and len(conds_) == 1 and conds_[0][1] and isinstance(conds_[0][0], ast.Compare) and isinstance(conds_[0][0].left, ast.Call) \
+                    and txt(conds_[0][0].left.func) == "len" and isinstance(conds_[0][0].ops[0], ast.Eq) and astx.const_value(conds_[0][0].comparators[0]) == 1:
+                o.holds(fn, r_, f"`{txt(conds_[0][0])}`: a single component holds every vertex, the fraction is 1")
+            else:
+                o.undecided(f"additional exit `return {txt(r_.value)[:40] if r_.value is not None else ''}`", fn, r_)
+        if extra:
+            rets = rets[-1:]
+        # the components that are compared are ALL of them: a filter on the component list (`len(c) > 1`) removes the isolated vertices,
+        # which ARE components of size 1 (the answer for an edgeless outcome)
+        for n in astx.walk_fn(fn.node):
+            if isinstance(n, (ast.ListComp, ast.GeneratorExp)) and len(n.generators) == 1 and n.generators[0].ifs and isinstance(n.generators[0].iter, ast.Call) \
+                    and prog.external(fn.module, n.generators[0].iter.func) == "networkx.connected_components":
+                o.violated(fn, n, f"the component list is filtered (`{txt(n.generators[0].ifs[0])}`): single vertices are components too - when no edge survives the largest "
+                                  "component has size 1, not 0", shape_free=True)
         if len(rets) != 1 or rets[0].value is None:
             o.undecided("expected a single return with a value", fn)
         else:
